@@ -26,9 +26,10 @@ TRUSTED = ["Coq 8.16.1 kernel + vm_compute (primitive floats: bit-exact IEEE bin
            "std Vec::sort_unstable(_by) modelled as an arbitrary sorted permutation (contract assumed, run as insertion sort)"]
 ASSUMPTIONS = ["Rust semantics of Vec/usize as modelled (checked indexing, debug overflow checks)",
                "the sampled cases are where model and code were compared; the theorems are about the model"]
-UNPROVED = ["all norm laws 'up to rounding' over f64 (searched with 1e-12 slack on data of moderate magnitude 1e-3..1e3; proved over R only); "
+UNPROVED = ["norm_p over R: non-negativity, homogeneity and norm_p = norm_1 / norm_2 at p = 1 / 2 are proved (pow on non-negative arguments as the real power function); "
+            "Minkowski (triangle inequality) and inf <= p <= 1 for general p are searched only",
+            "all norm laws 'up to rounding' over f64 (searched with 1e-12 slack on data of moderate magnitude 1e-3..1e3; proved over R only); "
             "they FAIL on the real code for entries whose square overflows/underflows (findings/C15-norm-range.md, replayable, not in the default search)",
-            "Minkowski's inequality for general p in [1,8] (norm_p): searched, not proved",
             "powspace endpoints/monotonicity and norm_p depend on libm pow: tied by tolerance and searched, not proved",
             "Vector::random: length and range [0,1) observed only"]
 
